@@ -31,11 +31,14 @@ ASSUMPTIONS = [
 
 BASE = dict(seqid="c1", source="s1", featuretype="exon", start=10, end=50, score=".", strand="+", frame=".")
 COLVARS = ({}, {"start": 11}, {"source": "s2"}, {"strand": "-"}, {"start": ".", "end": "."})      # last: undefined coordinates
-ATTRVARS_Q = ({"tag": ["a"]}, {"tag": ["b"], "note": ["n"]})
+ATTRVARS_Q = ({"tag": ["a"]}, {"tag": ["b"], "note": ["n", "n"]})          # one line naming the same value twice
 ATTRVARS_T = ATTRVARS_Q + ({"tag": ["a"], "note": ["n"]},)
 STRATS = [("error", ()), ("warning", ()), ("replace", ()), ("create_unique", ()),
           ("merge", ()), ("merge", ("source",)), ("merge", ("strand",)), ("merge", ("source", "strand")),
-          ("merge+debuglog", ())]                 # the same 'merge' with verbose="debug" (logging must not change the result)
+          ("merge+debuglog", ()),
+          ("merge", ("strand", "source"))]        # the same two columns named in non-alphabetical order
+SHIFT = 200000          # importer 'gff_shift': every coordinate is moved (into another bin) by a transform during the import
+                # the same 'merge' with verbose="debug" (logging must not change the result)
 
 
 GRAND = {"p1": "gp1", "p2": "gp2"}
@@ -54,14 +57,16 @@ def arrival_kinds(tier):
 
 def bounds(tier):
     return dict(arrival_kinds=len(arrival_kinds(tier)), later_arrivals="1..2" if tier == "quick" else "1..3",
-                strategies=[[s, list(f)] for s, f in STRATS], importers=["gff_create", "gff_update@every split", "gtf_create"])
+                strategies=[[s, list(f)] for s, f in STRATS], importers=["gff_create", "gff_update@every split", "gtf_create", "gff_shift (merge family only)"])
 
 
 def shards(tier):
     nk = len(arrival_kinds(tier))
     out = [("long", imp, si) for imp in ("gff_create", "gff_update", "gtf_create") for si in (3, 4, 5)]
     for si in range(len(STRATS)):
-        for imp in ("gff_create", "gff_update", "gtf_create"):
+        for imp in ("gff_create", "gff_update", "gtf_create", "gff_shift"):
+            if imp == "gff_shift" and not STRATS[si][0].startswith("merge"):
+                continue                 # the shifted import matters where columns are compared: the 'merge' family
             for k0 in range(nk):
                 out.append((si, imp, k0))
     return out
@@ -157,6 +162,14 @@ def body_long(ch, ctx):
                       got=sorted(gv), expected=sorted(eattrs.get("tag", ())))
 
 
+def _shift(f):
+    if f.start is not None:
+        f.start += SHIFT
+    if f.end is not None:
+        f.end += SHIFT
+    return f
+
+
 def body(ch, ctx):
     if ctx.shard[0] == "long":
         return body_long(ch, ctx)
@@ -205,6 +218,8 @@ def body(ch, ctx):
             db.update(p2, make_backup=False, **ukw)
         else:
             p = dbutil.write_text(wd, "a.g", "\n".join(([] if gtf else STATIC_GFF) + texts) + "\n")
+            if imp == "gff_shift":
+                kw["transform"] = _shift
             db = gffutils.create_db(p, ":memory:", **kw)
     except sqlite3.IntegrityError as e:
         ctx.fail("uncaught-integrity-error", dict(sig, generated_key_equals_explicit_id=ref.explicit_collision), lines=texts,
@@ -218,6 +233,7 @@ def body(ch, ctx):
     if not ctx.check(raised is None, "unexpected-exception", dict(sig, exc=type(raised).__name__), lines=texts, message=str(raised)[:300]):
         return
     exp = ref.expected()
+    merged_ids = ref.merged_ids()
     feats, rels = observe(db)
     dbutil.close_db(db)
     if not gtf:
@@ -231,6 +247,10 @@ def body(ch, ctx):
         if fid not in feats:
             continue
         gcols, gattrs = feats[fid]
+        if imp == "gff_shift":
+            ecols = dict(ecols)
+            for c in ("start", "end"):
+                ecols[c] = frozenset("." if v == "." else str(int(v) + SHIFT) for v in ecols[c])
         for c in COLNAMES:
             parts = gcols[c].split(",") if c in fmf else [gcols[c]]
             if c in fmf and len(parts) != len(set(parts)):
@@ -239,8 +259,12 @@ def body(ch, ctx):
                 ctx.fail("column-differs", dict(sig, column=c, exempt=c in fmf), lines=texts, id=fid, got=gcols[c], expected=sorted(ecols[c]))
         for k in set(eattrs) | set(gattrs):
             gv = gattrs.get(k, [])
-            if len(gv) != len(set(gv)):
-                ctx.fail("attribute-values-repeated", dict(sig, key=k), lines=texts, id=fid, got=gv)
+            if fid in merged_ids:
+                if len(gv) != len(set(gv)):          # a merge unions the values "without repeats"
+                    ctx.fail("attribute-values-repeated", dict(sig, key=k), lines=texts, id=fid, got=gv)
+            elif sorted(gv) != sorted(ref.raw_attrs(fid).get(k, [])):      # nothing was merged into it: the values as written
+                ctx.fail("unmerged-feature-values-differ-from-line", dict(sig, key="other"), lines=texts, id=fid, key=k, got=gv,
+                         expected=ref.raw_attrs(fid).get(k, []))
             if set(gv) != set(eattrs.get(k, ())):
                 ctx.fail("attribute-values-differ", dict(sig, key=k if k in ("Parent", "transcript_id") else "other",
                                                          lost=bool(set(eattrs.get(k, ())) - set(gv))),
